@@ -188,6 +188,9 @@ func runC05(c *rt.Ctx) {
 
 // ChunkRace is the concurrent scenario.
 type ChunkRace struct {
+	// Mode "" = two setters and a reader; "append" / "prepend" = value A exists, one connection
+	// appends/prepends to it (a read-modify-write of the whole value) while another reads
+	Mode    string `json:"mode,omitempty"`
 	NA, NB  int    `json:"na_nb"`
 	Reader  string `json:"reader"` // get | gat | append
 	Choices []int  `json:"choices"`
@@ -229,7 +232,20 @@ func runChunkRace(sc ChunkRace, prefix []int) *chunkRaceResult {
 	hB, cB := mk("B")
 	hR, cR := mk("R")
 	conns = append(conns, cA, cB, cR)
-	s.Go(0, func() { results[0] = CallHandler(hA, opA) })
+	if sc.Mode != "" {
+		// A is written beforehand (no scheduling); B's connection extends it by a few bytes so that
+		// the chunk count stays the same; the reader may see A or the extended value, or miss
+		cA.Before = nil
+		CallHandler(hA, opA)
+		ext := wire.Op{Kind: sc.Mode, Key: key, VGen: true, VLen: 7, VSeed: 74}
+		written = [][]byte{opA.Value()}
+		flags = []uint32{0xA}
+		oracle = lossOracle(written, flags, ext.Value(), sc.Mode == "prepend")
+		opB = ext
+		s.Go(0, func() { results[0] = HRes{Class: "ok"} })
+	} else {
+		s.Go(0, func() { results[0] = CallHandler(hA, opA) })
+	}
 	s.Go(1, func() { results[1] = CallHandler(hB, opB) })
 	s.Go(2, func() {
 		results[2] = CallHandler(hR, rd)
@@ -239,7 +255,11 @@ func runChunkRace(sc ChunkRace, prefix []int) *chunkRaceResult {
 	})
 	s.Run()
 	add := func(clause, what string) {
-		res.Findings = append(res.Findings, Finding{Sig: fmt.Sprintf("C05 %s reader=%s", clause, sc.Reader), What: what, Clause: clause})
+		w := "set/set"
+		if sc.Mode != "" {
+			w = sc.Mode
+		}
+		res.Findings = append(res.Findings, Finding{Sig: fmt.Sprintf("C05 %s writers=%s reader=%s", clause, w, sc.Reader), What: what, Clause: clause})
 	}
 	if s.Deadlock {
 		add("deadlock", s.DeadlockInfo)
@@ -288,13 +308,32 @@ func exploreChunkRaces(c *rt.Ctx, item *int) {
 	if c.Thorough() {
 		shapes = append(shapes, [2]int{3, 3}, [2]int{3, 2}, [2]int{1, 3})
 	}
+	type prog struct {
+		mode string
+		sh   [2]int
+		rd   string
+	}
+	var progs []prog
 	for _, sh := range shapes {
 		for _, rd := range []string{"get", "gat", "append"} {
+			progs = append(progs, prog{"", sh, rd})
+		}
+	}
+	for _, mode := range []string{"append", "prepend"} {
+		for _, n := range []int{1, 2, 3} {
+			for _, rd := range []string{"get", "gat"} {
+				progs = append(progs, prog{mode, [2]int{n, n}, rd})
+			}
+		}
+	}
+	for _, pg := range progs {
+		{
+			sh, rd := pg.sh, pg.rd
 			*item++
 			if !c.Mine(*item) {
 				continue
 			}
-			sc := ChunkRace{NA: sh[0], NB: sh[1], Reader: rd}
+			sc := ChunkRace{Mode: pg.mode, NA: sh[0], NB: sh[1], Reader: rd}
 			b := bound
 			if sh[0]+sh[1] >= 5 {
 				b = 3
@@ -326,7 +365,7 @@ func exploreChunkRaces(c *rt.Ctx, item *int) {
 			if ex.Truncated {
 				c.Cap(fmt.Sprintf("schedule cap reached for chunk race %v reader %s (preemption bound %d)", sh, rd, b))
 			}
-			key := fmt.Sprintf("race|%v|%s", sh, rd)
+			key := fmt.Sprintf("race|%s|%v|%s", pg.mode, sh, rd)
 			c.Distinct(key)
 			c.Nontrivial(key)
 			c.State(int64(len(outs)))
@@ -336,7 +375,7 @@ func exploreChunkRaces(c *rt.Ctx, item *int) {
 					o = append(o, k)
 				}
 			}
-			c.Sample(map[string]interface{}{"chunks_A_B": sh, "reader": rd, "schedules": ex.Execs, "outcomes": o})
+			c.Sample(map[string]interface{}{"writers": pg.mode, "chunks_A_B": sh, "reader": rd, "schedules": ex.Execs, "outcomes": o})
 		}
 	}
 }
